@@ -1285,8 +1285,21 @@ fn c07(tier: Tier, seed: u64) -> i32 {
 pub fn types_pairs(prop: &str) -> Vec<crate::tyeng::Pair> {
 	match prop {
 		"C14" => crate::tyeng::families_c14(),
-		"C15" => crate::tyeng::families_c15(),
-		"C07" => crate::tyeng::families_c07(),
+		"C15" => {
+			let mut v = crate::tyeng::families_c15();
+			// "constructors that skip the duplicate check ... require unsafe or owned inputs"
+			v.extend(crate::tyeng::families_owned_lockable().into_iter().map(|mut p| {
+				p.prop = "C15".into();
+				p.family = "D6-borrowing-type-is-not-OwnedLockable".into();
+				p
+			}));
+			v
+		}
+		"C07" => {
+			let mut v = crate::tyeng::families_c07();
+			v.extend(crate::tyeng::families_owned_lockable());
+			v
+		}
 		_ => vec![],
 	}
 }
